@@ -42,6 +42,9 @@ SHARED = {}
 SHARED_NAMES = []
 SERIAL_STEPS = []
 SERIAL_SHARED = []  # per item: line events inside shared-state functions when printed alone
+SERIAL_SITES = []   # per item: {(function, line): times reached} for shared-state sites, printed alone
+SWEEP = {}          # item -> ordered pre-emption candidates [(function, line, occurrence)], rare sites first
+SERIAL_HELD = []    # per item: which of those shared-state yield points (1-based) run while a package lock is held
 PAIRS = []          # stratified sweep workloads: (item index, item index)
 PAIR_NAMES = [('uuid', 'uuid2'), ('uuid', 'uuid_in_list'), ('uuid_in_dict', 'mproxy'), ('enum', 'enum_list'),
               ('enum', 'intenum'), ('intenum', 'flag'), ('ppath', 'wpath'), ('ppath', 'path_long'),
@@ -79,19 +82,29 @@ class HExact(HBase):
     pass
 
 
-class HDirect(HBase):
+class HPlain:
+    """no by-name printer anywhere in the MRO (so predicates and the repr fall-back are reachable)"""
+
+    def __init__(self, *a):
+        self.a = a
+
+    def __repr__(self):
+        return '%s<repr>' % type(self).__name__
+
+
+class HDirect(HPlain):
     pass
 
 
-class HPred(HBase):
+class HPred(HPlain):
     pass
 
 
-class HUnreg(HBase):
+class HUnreg(HPlain):
     pass
 
 
-class HBad(HBase):
+class HBad(HPlain):
     pass
 
 
@@ -342,12 +355,18 @@ def _measure_serial_steps():
         out = []
         for i in range(len(ITEMS)):
             n = [0, 0]
+            held = []
+            sites = {}
 
             def local(frame, event, arg):
                 if event == 'line':
                     n[0] += 1
                     if frame.f_code in SHARED:
                         n[1] += 1
+                        if sched.LOCK_STATS['held'] > 0:
+                            held.append(n[1])
+                        key = '%s:%d' % (frame.f_code.co_name, frame.f_lineno)
+                        sites[key] = sites.get(key, 0) + 1
                 return local
 
             def glob(frame, event, arg):
@@ -362,13 +381,28 @@ def _measure_serial_steps():
                     ok = repr(e)
             finally:
                 sys.settrace(None)
-            out.append([n[0], ok, n[1]])
+            out.append([n[0], ok, n[1], held, sites])
         return out
     kind, res = core.in_fork(go, 120)
     if kind != 'ok':
         raise core.HarnessError('serial step measurement failed: %s' % (res,))
     SERIAL_STEPS[:] = [r[0] for r in res]
     SERIAL_SHARED[:] = [r[2] for r in res]
+    SERIAL_HELD[:] = [r[3] for r in res]
+    SERIAL_SITES[:] = [r[4] for r in res]
+    for i, sites in enumerate(SERIAL_SITES):
+        # rare (cold-path, first-use) sites first; per site the first, last, second, ... occurrence
+        cand = []
+        ordered = sorted(sites.items(), key=lambda kv: (kv[1], kv[0]))
+        for rnd in range(4):
+            for key, cnt in ordered:
+                occs = [1, cnt, 2, max(1, cnt // 2)]
+                occ = occs[rnd]
+                name, line = key.rsplit(':', 1)
+                c = (name, int(line), occ)
+                if occ <= cnt and c not in cand:
+                    cand.append(c)
+        SWEEP[i] = cand
     byname = {it[0]: i for i, it in enumerate(ITEMS)}
     PAIRS[:] = [(byname[a], byname[b]) for a, b in PAIR_NAMES if a in byname and b in byname]
     bad = [ITEMS[i][0] for i, r in enumerate(res) if r[1] is not True]
@@ -403,9 +437,22 @@ def generate(rng, idx, tier):
         if rot % 2:
             a, b = b, a
         ka = max(1, SERIAL_SHARED[a])
-        # stride through 1..ka with a step coprime to ka, so that a short batch samples the whole range
-        step = next(st for st in (7, 5, 3, 11, 13, 1) if ka % st)
-        k = 1 + ((rot // 2) * step) % ka
+        r2 = rot // 2
+        if SWEEP.get(a) and rng.random() < 0.8:
+            # site-stratified: park thread A at the occ-th time it reaches one shared-state source line
+            site = SWEEP[a][r2 % len(SWEEP[a])]
+            est = SERIAL_STEPS[a] + SERIAL_STEPS[b]
+            return dict(threads=[[a], [b]],
+                        sched=dict(seed=rng.randrange(1 << 30), opcode=False, max_steps=est * 60 + 20000,
+                                   est_steps=est, policy='strat', strat_tid=0, strat_k=0,
+                                   strat_site=list(site), sweep=True))
+        # alternate between yield points under a package lock and the lock-free ones; stride through
+        # each list with a step coprime to its length, so that a short batch samples the whole range
+        held = SERIAL_HELD[a]
+        free = [x for x in range(1, ka + 1) if x not in set(held)] or [1]
+        pick = held if (held and r2 % 2 == 0) else free
+        step = next(st for st in (7, 5, 3, 11, 13, 1) if len(pick) % st or len(pick) == 1)
+        k = pick[((r2 // 2) * step) % len(pick)]
         est = SERIAL_STEPS[a] + SERIAL_STEPS[b]
         return dict(threads=[[a], [b]],
                     sched=dict(seed=rng.randrange(1 << 30), opcode=False, max_steps=est * 60 + 20000,
